@@ -135,6 +135,30 @@ theorem validR_iff (r : Lossy.Relation) : validR r = true ↔
     cases aq <;> cases archs <;> rcases ver with _ | ⟨c, v⟩ <;>
       simp [validR, and_assoc, List.all_eq_true, List.isEmpty_iff]
 
+theorem validR_of_validRS {r : Lossy.Relation} (h : validRS r = true) : validR r = true := by
+  simp only [validRS, Bool.and_eq_true] at h; exact h.1
+
+theorem validRS_iff (r : Lossy.Relation) : validRS r = true ↔
+    isIdent r.name = true ∧ (∀ a, r.archqual = some a → isIdent a = true)
+      ∧ (∀ c v, r.version = some (c, v) → validVersion v = true)
+      ∧ (∀ as, r.architectures = some as → as ≠ [] ∧ ∀ a ∈ as, validArch a = true)
+      ∧ (∀ g ∈ r.profiles, ∀ p ∈ g, isIdent (profName p) = true) := by
+  simp only [validRS, Bool.and_eq_true, validR_iff]
+  cases r with
+  | mk name aq archs ver profs =>
+    cases archs with
+    | none => simp
+    | some as =>
+      simp only [Option.some.injEq, forall_eq', Bool.not_eq_true', List.isEmpty_eq_false_iff]
+      constructor
+      · rintro ⟨⟨h1, h2, h3, h4, h5⟩, hne⟩; exact ⟨h1, h2, h3, ⟨hne, h4⟩, h5⟩
+      · rintro ⟨h1, h2, h3, ⟨hne, h4⟩, h5⟩; exact ⟨⟨h1, h2, h3, h4, h5⟩, hne⟩
+
+theorem validRs_of_validRSs {rs : List (List Lossy.Relation)} (h : validRSs rs = true) : validRs rs = true := by
+  simp only [validRSs, validRs, List.all_eq_true, Bool.and_eq_true] at h ⊢
+  intro e he
+  exact ⟨(h e he).1, fun r hr => validR_of_validRS ((h e he).2 r hr)⟩
+
 theorem validVersion_iff (v : Version) : validVersion v = true ↔
     (versionAOf v).ok = true ∧ (versionAOf v).value = v := by
   simp [validVersion]
